@@ -42,7 +42,14 @@ func runC41(c *Ctx) {
 	// the big-integer comparison may sit in a tiebreak helper over the two VRF outputs: its atom is then named in
 	// the helper's vocabulary and carried into the helper's evaluation unchanged
 	var helperCmp []string
-	okOperands := strings.Index(cmpAtom, "VRFOutput(p1)") >= 0 && strings.Index(cmpAtom, "VRFOutput(p1)") < strings.Index(cmpAtom, "VRFOutput(p2)")
+	// orientation of the integer comparison: +1 for a against b, −1 for b against a (the atom then carries the
+	// opposite sign of the spec's "VRF order of a relative to b")
+	cmpSign := int64(1)
+	ia, ib := strings.Index(cmpAtom, "VRFOutput(p1)"), strings.Index(cmpAtom, "VRFOutput(p2)")
+	okOperands := ia >= 0 && ib >= 0 && ia != ib
+	if okOperands && ib < ia {
+		cmpSign = -1
+	}
 	if cmpAtom == "" {
 		for _, ci := range allCalls(cmpFn) {
 			h := samePkgHelper(cmpFn, ci.Common())
@@ -65,7 +72,15 @@ func runC41(c *Ctx) {
 						bi = i
 					}
 				}
-				okOperands = ai >= 0 && bi >= 0 && strings.Contains(ta, fmt.Sprintf("p%d", ai)) && strings.Contains(tb, fmt.Sprintf("p%d", bi))
+				pa, pb := fmt.Sprintf("p%d", ai), fmt.Sprintf("p%d", bi)
+				switch {
+				case ai >= 0 && bi >= 0 && strings.Contains(ta, pa) && strings.Contains(tb, pb):
+					okOperands = true
+				case ai >= 0 && bi >= 0 && strings.Contains(ta, pb) && strings.Contains(tb, pa):
+					okOperands, cmpSign = true, -1
+				default:
+					okOperands = false
+				}
 			}
 		}
 	}
@@ -74,7 +89,7 @@ func runC41(c *Ctx) {
 		return
 	}
 	// the Cmp must be a(VRF) vs b(VRF) in that order
-	c.Check(okOperands, "compare-table", key+":vrf-operands", cmpFn.Pos(), "VRF outputs are compared as integers, a against b", "the VRF comparison is not int(a.VRF).Cmp(int(b.VRF))")
+	c.Check(okOperands, "compare-table", key+":vrf-operands", cmpFn.Pos(), "VRF outputs of a and b are compared as integers", "the VRF comparison is not between int(a.VRF) and int(b.VRF)")
 	type cell struct{ bn, ea, eb, vc int }
 	table := map[cell]int{}
 	spec := func(x cell) int {
@@ -97,10 +112,10 @@ func runC41(c *Ctx) {
 				for _, vc := range []int{-1, 0, 1} {
 					val := map[string]int64{"p1": 1, "p2": 1, bnA: int64(1 + bn), bnB: 1, lenA: int64(1 - ea), lenB: int64(1 - eb)}
 					if cmpAtom != "" {
-						val[cmpAtom] = int64(vc)
+						val[cmpAtom] = cmpSign * int64(vc)
 					}
 					for _, a := range helperCmp {
-						val[a] = int64(vc)
+						val[a] = cmpSign * int64(vc)
 					}
 					var res []string
 					if rs, okc := constResults(cmpFn, 0, val, 0); okc {
